@@ -1,17 +1,18 @@
 (** Property C18: what "adding foreign content to a document" means, on trees.
 
-    [attrs_ext a a']        a' is a with attributes that carry a namespace inserted anywhere
-    [ins_gen P Hd n n']     n' is n with (i) namespaced attributes added to any element and
-                            (ii) elements satisfying [P] inserted anywhere among the children of
-                            any element that is not named [prototype], subject to the condition
-                            [Hd] on (old children, new children) of every element.
-    [fins]                  the insertion of property C18 at full strength: any element whose
-                            namespace is neither the E57 namespace nor "none", any local name, any
-                            subtree, any position.
-    [ins]                   the restricted insertion for which extraction provably does not
-                            change: no element of an inserted subtree has a local name the
-                            extractors look up, and nothing is inserted in front of a leading
-                            text node.
+    [attrs_ext a a']     a' is a with attributes that carry a namespace inserted anywhere
+    [ins_gen P n n']     n' is n with (i) namespaced attributes added to any element, (ii) nodes
+                         satisfying [P] inserted anywhere among the children of any element - but
+                         among the children of an element named [prototype] only non-elements -
+                         and (iii) text nodes split where something is inserted inside a text
+    [fins] / [fins_doc] / [insert_foreign]
+                         C18 at full strength: the inserted nodes are elements of a foreign
+                         namespace (non-empty, not the E57 one) with ANY local name and ANY
+                         subtree, comments and processing instructions; any position: before a
+                         standard sibling of the same name, as first child of a leaf, inside its
+                         text, anywhere in document order.  At document level (around the root
+                         element) comments and processing instructions.
+    [fattr]              only namespaced attributes are added.
     The namespace declarations an inserted element needs are carried by the element itself (or
     exist already): the in-scope namespaces of the original elements are unchanged.
     No proofs here. *)
@@ -25,46 +26,30 @@ Local Notation "'B' s" := (ltac:(let v := eval vm_compute in (bytes_of_string s%
 Definition E57_NS : xstr := B"http://www.astm.org/COMMIT/E57/2010-e57-v1.0".
 Definition PROTOTYPE : xstr := B"prototype".
 
-(** every string the extractors pass to [has_tag_name] *)
-Definition lookup_names : list xstr :=
-  [ B"e57Root"; B"formatName"; B"guid"; B"versionMajor"; B"creationDateTime"; B"coordinateMetadata";
-    B"e57LibraryVersion"; B"data3D"; B"images2D"; B"vectorChild";
-    B"name"; B"description"; B"sensorModel"; B"sensorVendor"; B"sensorSerialNumber";
-    B"sensorHardwareVersion"; B"sensorSoftwareVersion"; B"sensorFirmwareVersion";
-    B"temperature"; B"relativeHumidity"; B"atmosphericPressure";
-    B"acquisitionStart"; B"acquisitionEnd"; B"pose";
-    B"cartesianBounds"; B"sphericalBounds"; B"indexBounds"; B"intensityLimits"; B"colorLimits";
-    B"originalGuids"; B"points"; B"prototype";
-    B"dateTimeValue"; B"isAtomicClockReferenced"; B"translation"; B"rotation"; B"w"; B"x"; B"y"; B"z";
-    B"xMinimum"; B"xMaximum"; B"yMinimum"; B"yMaximum"; B"zMinimum"; B"zMaximum";
-    B"rangeMinimum"; B"rangeMaximum"; B"elevationMinimum"; B"elevationMaximum"; B"azimuthStart"; B"azimuthEnd";
-    B"rowMinimum"; B"rowMaximum"; B"columnMinimum"; B"columnMaximum"; B"returnMinimum"; B"returnMaximum";
-    B"intensityMinimum"; B"intensityMaximum";
-    B"colorRedMinimum"; B"colorRedMaximum"; B"colorGreenMinimum"; B"colorGreenMaximum";
-    B"colorBlueMinimum"; B"colorBlueMaximum";
-    B"associatedData3DGuid"; B"acquisitionDateTime";
-    B"visualReferenceRepresentation"; B"pinholeRepresentation"; B"sphericalRepresentation";
-    B"cylindricalRepresentation"; B"jpegImage"; B"pngImage"; B"imageMask"; B"imageWidth"; B"imageHeight";
-    B"focalLength"; B"pixelWidth"; B"pixelHeight"; B"principalPointX"; B"principalPointY"; B"radius" ].
-
-Definition is_lookup_name (s : xstr) : bool := existsb (xstr_eqb s) lookup_names.
-
 Definition local_name (n : xnode) : xstr :=
   match n with XElem nm _ _ _ => xn_local nm | _ => [] end.
 
-(** an element in a namespace that is neither the E57 one nor "no namespace" *)
+(** an element in a namespace that is neither empty nor the E57 one *)
 Definition foreign_elem (n : xnode) : bool :=
   match n with
   | XElem nm _ _ _ =>
-      match xn_ns nm with Some u => negb (xstr_eqb u E57_NS) | None => false end
+      match xn_ns nm with
+      | Some u => negb (match u with [] => true | _ => false end) && negb (xstr_eqb u E57_NS)
+      | None => false
+      end
   | _ => false
   end.
 
-(** an element none of whose elements (itself included) has a looked-up local name *)
-Definition inert_node (n : xnode) : bool :=
-  match n with XElem nm _ _ _ => negb (is_lookup_name (xn_local nm)) | _ => true end.
-Definition inert_subtree (n : xnode) : bool :=
-  is_element n && forallb inert_node (descendants n).
+(** what may be inserted: a foreign element with any subtree, a comment, a processing instruction *)
+Definition insertable (n : xnode) : bool :=
+  match n with
+  | XElem _ _ _ _ => foreign_elem n
+  | XComment _ => true
+  | XPI _ _ => true
+  | XText _ => false
+  end.
+
+Definition is_textb (n : xnode) : bool := match n with XText _ => true | _ => false end.
 
 Definition namespaced (a : xattr) : bool :=
   match xn_ns (xa_name a) with Some _ => true | None => false end.
@@ -75,8 +60,7 @@ Inductive attrs_ext : list xattr -> list xattr -> Prop :=
 | ae_ins a l l' : namespaced a = true -> attrs_ext l l' -> attrs_ext l (a :: l').
 
 Section Gen.
-Variable P : xnode -> Prop.                            (* which elements may be inserted *)
-Variable Hd : list xnode -> list xnode -> Prop.        (* condition on (old, new) children *)
+Variable P : xnode -> bool.                            (* which nodes may be inserted *)
 
 Inductive ins_gen : xnode -> xnode -> Prop :=
 | ig_text t : ins_gen (XText t) (XText t)
@@ -85,41 +69,26 @@ Inductive ins_gen : xnode -> xnode -> Prop :=
 | ig_elem nm a a' sc ch ch' :
     attrs_ext a a' ->
     ins_list (xstr_eqb (xn_local nm) PROTOTYPE) ch ch' ->
-    Hd ch ch' ->
     ins_gen (XElem nm a sc ch) (XElem nm a' sc ch')
-(** [ins_list proto old new]: no insertion among the children of a prototype *)
+(** [ins_list only_misc old new]: with [only_misc] only non-elements are inserted *)
 with ins_list : bool -> list xnode -> list xnode -> Prop :=
 | il_nil b : ins_list b [] []
 | il_keep b c c' r r' : ins_gen c c' -> ins_list b r r' -> ins_list b (c :: r) (c' :: r')
-| il_ins f r r' : is_element f = true -> P f -> ins_list false r r' -> ins_list false r (f :: r').
+| il_ins b f r r' :
+    P f = true -> is_textb f = false -> (b = false \/ is_element f = false) ->
+    ins_list b r r' -> ins_list b r (f :: r')
+| il_split b t1 t2 r r' :
+    ins_list b (XText t2 :: r) r' -> ins_list b (XText (t1 ++ t2) :: r) (XText t1 :: r').
 
-(** documents: the children of the document node correspond one to one *)
-Definition ins_doc_gen (d d' : xdoc) : Prop := Forall2 ins_gen (xd_children d) (xd_children d').
+(** documents: comments and processing instructions may be added around the root element *)
+Definition ins_doc_gen (d d' : xdoc) : Prop := ins_list true (xd_children d) (xd_children d').
 End Gen.
 
-(** nothing inserted in front of a leading text node *)
-Definition head_text_kept (ch ch' : list xnode) : Prop :=
-  match ch with
-  | XText _ :: _ => match ch' with XText _ :: _ => True | _ => False end
-  | _ => True
-  end.
-
 (** C18 at full strength *)
-Definition fins : xnode -> xnode -> Prop := ins_gen (fun f => foreign_elem f = true) (fun _ _ => True).
-Definition fins_doc : xdoc -> xdoc -> Prop := ins_doc_gen (fun f => foreign_elem f = true) (fun _ _ => True).
+Definition fins : xnode -> xnode -> Prop := ins_gen insertable.
+Definition fins_doc : xdoc -> xdoc -> Prop := ins_doc_gen insertable.
 Definition insert_foreign : xdoc -> xdoc -> Prop := fins_doc.
 
-(** the restriction under which extraction is unchanged (the namespace of the inserted elements
-    does not matter) *)
-Definition ins : xnode -> xnode -> Prop := ins_gen (fun f => inert_subtree f = true) head_text_kept.
-Definition ins_doc : xdoc -> xdoc -> Prop := ins_doc_gen (fun f => inert_subtree f = true) head_text_kept.
-
-(** the same with the inserted elements required to be foreign as well *)
-Definition fins_inert : xnode -> xnode -> Prop :=
-  ins_gen (fun f => foreign_elem f = true /\ inert_subtree f = true) head_text_kept.
-Definition fins_inert_doc : xdoc -> xdoc -> Prop :=
-  ins_doc_gen (fun f => foreign_elem f = true /\ inert_subtree f = true) head_text_kept.
-
 (** only namespaced attributes are added (anywhere, also inside prototypes) *)
-Definition fattr : xnode -> xnode -> Prop := ins_gen (fun _ => False) (fun _ _ => True).
-Definition fattr_doc : xdoc -> xdoc -> Prop := ins_doc_gen (fun _ => False) (fun _ _ => True).
+Definition fattr : xnode -> xnode -> Prop := ins_gen (fun _ => false).
+Definition fattr_doc : xdoc -> xdoc -> Prop := ins_doc_gen (fun _ => false).
